@@ -47,6 +47,8 @@ void dtor_cb(void *src) {
     if (b.shadow != 0) VIOL("C10", "C10:dtor-while-referenced", "destructor ran while %ld references remain", b.shadow);
     if (!blk_live(src)) VIOL("C10", "C10:dtor-on-freed", "destructor ran on memory already returned to the allocator");
     check_pattern(b, "in destructor");   // block must still be valid inside its destructor
+    size_t sz = m_mem_size(src);         // ... and still answers for its size
+    if (sz != b.size) VIOL("C10", "C10:size-mismatch:in-destructor", "m_mem_size=%zu inside the block's destructor, requested=%zu", sz, b.size);
     if (b.dtor_kind == 2) {
         for (int c : b.children) { D->nested++; drop_ref(c); }
     }
